@@ -27,6 +27,14 @@ pub fn build_term<A>(vm: &mut Vm<A>, t: &J) -> Value {
                 let v = build_term(vm, &e[1]);
                 g.as_table_mut().unwrap().insert(k, v).unwrap();
             }
+            // history: further entries inserted and removed again (the storage of the table grew meanwhile)
+            let extra = t["i"].as_i64().unwrap_or(0);
+            for x in 0..extra {
+                g.as_table_mut().unwrap().insert(Value::Integer(1000 + x), Value::Integer(x)).unwrap();
+            }
+            for _ in 0..extra {
+                g.as_table_mut().unwrap().pop().unwrap();
+            }
             Value::Object(g.into_inner())
         }
         "fn" => {
